@@ -24,7 +24,8 @@
 (***************************************************************************)
 EXTENDS Integers, Sequences, FiniteSets, TLC, Json, CSV, IOUtils
 CONSTANTS Families,    \* subset of {"one", "rsv", "two", "three"}: which configuration families Init ranges over
-          OneRsv,      \* reservation lists (boot permission codes) combined with every single-section geometry
+          OneRsv,      \* boot histories combined with every single-section geometry
+          HistLen,     \* the "rsv" family ranges over every boot history of up to HistLen reservation requests
           Bug,         \* "" or the name of a design mutant
           Emit,        \* write every configuration to IOEnv.CASES (leg G)
           TwoFlags,    \* ELF flag values used for each section of the two-section family
@@ -43,12 +44,15 @@ TempPage == 191
 Walkable == 0..191                 \* everything below the recursive window
 KOff == 512                        \* page 128: first slot of the "kernel half" <<2,0,0,0>>
 
-VARIABLES cfg,        \* [off, secs: Seq([a, sz, fl]), rsv: Seq(flag code)]
+VARIABLES cfg,        \* [off, secs: Seq([a, sz, fl]), hist: Seq(Int)]  hist = the early-reservation requests made
+                      \* before initialisation: c >= 0 a one-page request that is then mapped with boot
+                      \* permission code c; -1..-5 an oversized request (see FailSize) that must be refused
           pc, i,
+          cursor,     \* earlyReserveLastUsed when initialisation starts
           boot, new,  \* page -> entry of the boot / the new address space
           active,     \* "boot" | "new"
           s, mismatch
-vars == <<cfg, pc, i, boot, new, active, s, mismatch>>
+vars == <<cfg, pc, i, cursor, boot, new, active, s, mismatch>>
 
 \* an address space is the set of its translations [p, f, rw, us, nx] (at most one per page)
 Ent(p, f, rw, us, nx) == [p |-> p, f |-> f, rw |-> rw, us |-> us, nx |-> nx]
@@ -69,16 +73,18 @@ BelowCands(off) == IF off = 0 THEN {}
 
 Configs(fam) ==
   CASE fam = "one" ->
-         UNION {{[off |-> off, secs |-> <<Sec(g.a, g.sz, fl)>>, rsv |-> r] :
+         UNION {{[off |-> off, secs |-> <<Sec(g.a, g.sz, fl)>>, hist |-> r] :
                    fl \in 0..7, r \in OneRsv,
                    g \in InCands(KOff, {1, 3, 4, 5, 8}) \cup BelowCands(KOff) \cup InCands(0, {1, 4, 5}) \cup AtCands(off)} :
                 off \in {0, KOff}}
     [] fam = "rsv" ->
-         \* 0..3 reserved pages with every boot permission combination on the lowest one
-         {[off |-> KOff, secs |-> <<Sec(KOff + 8, 5, 2)>>, rsv |-> r] :
-            r \in {<<>>} \cup {<<c>> : c \in 0..7} \cup {<<c, 1>> : c \in 0..7} \cup {<<c, 6, 3>> : c \in 0..7}}
+         \* 0..3 reserved pages with every boot permission combination on the lowest one, and every boot
+         \* history of up to HistLen requests that mixes successful and refused (oversized) requests
+         {[off |-> KOff, secs |-> <<Sec(KOff + 8, 5, 2)>>, hist |-> r] :
+            r \in {<<>>} \cup {<<c>> : c \in 0..7} \cup {<<1, c>> : c \in 0..7} \cup {<<3, 6, c>> : c \in 0..7}
+                  \cup UNION {[1..k -> {3, 5, -1, -2, -3, -4, -5}] : k \in 1..HistLen}}
     [] fam = "two" ->
-         {[off |-> KOff, secs |-> <<Sec(g[1].a, g[1].sz, f1), Sec(g[2].a, g[2].sz, f2)>>, rsv |-> <<3>>] :
+         {[off |-> KOff, secs |-> <<Sec(g[1].a, g[1].sz, f1), Sec(g[2].a, g[2].sz, f2)>>, hist |-> <<3>>] :
             f1 \in TwoFlags, f2 \in TwoFlags,
             g \in {h \in (InCands(KOff, TwoSizes) \cup BelowCands(KOff)) \X (InCands(KOff, TwoSizes) \cup BelowCands(KOff)) :
                      PagesOf(h[1]) \cap PagesOf(h[2]) = {}}}
@@ -87,22 +93,40 @@ Configs(fam) ==
          {[off |-> KOff, secs |-> <<Sec(KOff + 8, z[1], f[1]),
                                     Sec(KOff + 8 + PS * ((z[1] + PS - 1) \div PS), z[2], f[2]),
                                     Sec(KOff + 8 + PS * ((z[1] + PS - 1) \div PS) + PS * ((z[2] + PS - 1) \div PS), z[3], f[3])>>,
-           rsv |-> <<>>] :
+           hist |-> <<>>] :
             z \in ThreeSizes \X ThreeSizes \X ThreeSizes, f \in (0..7) \X (0..7) \X (0..7)}
 
-NRsv == Len(cfg.rsv)
-RsvPages == (TempPage - NRsv)..(TempPage - 1)
+(* ---- boot history: EarlyReserveRegion (addr_space.go) as the boot code used it before vmm.Init ---- *)
+Mod == 1024
+TempAddr == TempPage * PS
+\* sizes that cannot be satisfied: just above the space that is left, and near the top of the word
+FailSize(k, cur) == CASE k = -1 -> cur + 1 [] k = -2 -> cur + PS [] k = -3 -> Mod - 2 * PS [] k = -4 -> Mod - PS [] OTHER -> Mod - 1
+\* EarlyReserveRegion(size) with the cursor at cur: <<accepted, cursor afterwards>>
+Reserve(cur, size) ==
+  IF size > Mod - 1 - (PS - 1) THEN <<FALSE, cur>>                       \* the round-up would wrap
+  ELSE LET r == ((size + PS - 1) \div PS) * PS IN
+       IF r > cur THEN <<FALSE, IF Bug = "RejectMovesCursor" THEN (cur + Mod - r) % Mod ELSE cur>>
+       ELSE <<TRUE, cur - r>>
+\* replay of the history: cursor at the end and the pages handed out (in request order, with their permission code)
+RECURSIVE Boot(_, _, _, _)
+Boot(h, j, cur, got) ==
+  IF j > Len(h) THEN [cur |-> cur, got |-> got]
+  ELSE LET r == Reserve(cur, IF h[j] >= 0 THEN PS ELSE FailSize(h[j], TempAddr - PS * Len(got))) IN
+       Boot(h, j + 1, r[2], IF r[1] /\ h[j] >= 0 THEN Append(got, <<r[2] \div PS, h[j]>>) ELSE got)
+B0 == Boot(cfg.hist, 1, TempAddr, <<>>)
+NRsv == Len(B0.got)
 
 EvCfg == [k |-> "cfg", off |-> Wn(cfg.off),
           secs |-> [j \in 1..Len(cfg.secs) |-> [a |-> Wn(cfg.secs[j].a), sz |-> Wn(cfg.secs[j].sz), fl |-> cfg.secs[j].fl]],
-          rsv |-> [j \in 1..NRsv |-> [p |-> Wn(TempPage - NRsv + j - 1), f |-> Wn(40 + j)]],
+          rsv |-> [j \in 1..NRsv |-> [p |-> Wn(B0.got[j][1]), f |-> Wn(40 + j)]],
           tmp |-> Wn(TempPage), failat |-> 0]
 
 Init ==
   /\ cfg \in UNION {Configs(f) : f \in Families}
   /\ pc = "root" /\ i = 1 /\ active = "boot"
+  /\ cursor = B0.cur
   \* boot address space: the reservations (arbitrary permissions) and an identity-mapped low page
-  /\ boot = {Ent(TempPage - NRsv + j - 1, 40 + j, Bit(cfg.rsv[j], 0), Bit(cfg.rsv[j], 2), Bit(cfg.rsv[j], 1)) : j \in 1..NRsv}
+  /\ boot = {Ent(B0.got[j][1], 40 + j, Bit(B0.got[j][2], 0), Bit(B0.got[j][2], 2), Bit(B0.got[j][2], 1)) : j \in 1..NRsv}
             \cup {Ent(10, 10, 1, 0, 0)}
   /\ new = {Ent(77, 77, 1, 1, 0)}          \* whatever the fresh frame happened to contain
   /\ s = P!MonCfg(P!S0, EvCfg).s
@@ -114,7 +138,7 @@ MkRoot ==
   /\ pc = "root"
   /\ new' = IF Bug = "RootNotCleared" THEN new ELSE {}
   /\ pc' = "sec"
-  /\ UNCHANGED <<cfg, i, boot, active, s, mismatch>>
+  /\ UNCHANGED <<cfg, i, cursor, boot, active, s, mismatch>>
 
 \* the visitor closure for section i
 RECURSIVE MapPages(_, _, _, _, _)
@@ -134,22 +158,25 @@ MapSection ==
                  ELSE IF g.a >= cfg.off THEN (g.a - cfg.off) \div PS ELSE (g.a + 1024 - cfg.off) \div PS   \* unsigned wrap
      IN new' = IF inRange THEN MapPages(new, cur, last, fr, e) ELSE new
   /\ i' = i + 1
-  /\ UNCHANGED <<cfg, pc, boot, active, s, mismatch>>
+  /\ UNCHANGED <<cfg, pc, cursor, boot, active, s, mismatch>>
 
 SectionsDone ==
   /\ pc = "sec" /\ i > Len(cfg.secs)
   /\ pc' = "rsv"
-  /\ UNCHANGED <<cfg, i, boot, new, active, s, mismatch>>
+  /\ UNCHANGED <<cfg, i, cursor, boot, new, active, s, mismatch>>
 
 \* second loop: everything from the reservation cursor up to the temporary page is translated in the
 \* boot address space and mapped present + writable in the new one
 CopyRsv ==
   /\ pc = "rsv"
-  /\ LET from == IF Bug = "RsvSkipLowest" THEN TempPage - NRsv + 1 ELSE TempPage - NRsv
-         cp   == {Ent(b.p, b.f, 1, 0, 0) : b \in {x \in boot : x.p >= from /\ x.p < TempPage}} IN
-     new' = {x \in new : \A c \in cp : c.p # x.p} \cup cp
-  /\ pc' = "act"
-  /\ UNCHANGED <<cfg, i, boot, active, s, mismatch>>
+  /\ LET from == (cursor \div PS) + (IF Bug = "RsvSkipLowest" THEN 1 ELSE 0)
+         todo == {p \in from..(TempPage - 1) : TRUE}
+         cp   == {Ent(b.p, b.f, 1, 0, 0) : b \in {x \in boot : x.p \in todo}}
+         \* a page of the range that the boot address space does not translate makes initialisation fail
+         untranslated == \E p \in todo : \A x \in boot : x.p # p
+     IN /\ new' = IF untranslated THEN new ELSE {x \in new : \A c \in cp : c.p # x.p} \cup cp
+        /\ pc' = IF untranslated THEN "fail" ELSE "act"
+  /\ UNCHANGED <<cfg, i, cursor, boot, active, s, mismatch>>
 
 RECURSIVE SeqOfSet(_)
 SeqOfSet(S) == IF S = {} THEN <<>> ELSE LET m == CHOOSE x \in S : \A y \in S : x.p <= y.p IN <<m>> \o SeqOfSet(S \ {m})
@@ -158,15 +185,15 @@ WalkOf(pt) == LET ps == SeqOfSet({x \in pt : x.p \in Walkable}) IN
               [j \in 1..Len(ps) |-> [p |-> Wn(ps[j].p), f |-> Wn(ps[j].f), fl |-> <<ps[j].rw, ps[j].us, ps[j].nx>>, lus |-> ps[j].us]]
 
 Activate ==
-  /\ pc = "act"
-  /\ active' = IF Bug = "NoActivate" THEN active ELSE "new"
+  /\ pc \in {"act", "fail"}
+  /\ active' = IF Bug = "NoActivate" \/ pc = "fail" THEN active ELSE "new"
   /\ pc' = "done"
-  /\ LET e == [k |-> "done", res |-> "ok", walk |-> WalkOf(IF active' = "new" THEN new ELSE boot), bad |-> 0, nfail |-> 0]
+  /\ LET e == [k |-> "done", res |-> IF pc = "fail" THEN "err:translate" ELSE "ok", walk |-> WalkOf(IF active' = "new" THEN new ELSE boot), bad |-> 0, nfail |-> 0]
          m == P!MonDone(s, e)
          S == {j \in 1..Len(m.cs) : m.cs[j][2]}
      IN /\ s' = m.s
         /\ mismatch' = IF S = {} THEN <<>> ELSE LET j == CHOOSE j \in S : \A k \in S : j <= k IN <<m.cs[j][1], m.cs[j][3]>>
-  /\ UNCHANGED <<cfg, i, boot, new>>
+  /\ UNCHANGED <<cfg, i, cursor, boot, new>>
 
 Next == MkRoot \/ MapSection \/ SectionsDone \/ CopyRsv \/ Activate
 
